@@ -1155,10 +1155,15 @@ class Reach:
         fn = self.fn
         defs = fn.defs()
         src = l
-        for _ in range(3):
+        for _ in range(5):
             ds = defs.get(src, [])
             if len(ds) == 1 and ds[0][2] == 'assign' and ds[0][3][0] == 'use' and ds[0][3][1][0] in ('c', 'm') and isinstance(ds[0][3][1][1], int):
                 src = ds[0][3][1][1]
+            elif len(ds) == 1 and ds[0][2] == 'assign' and ds[0][3][0] == 'discr' and isinstance(ds[0][3][1], int):
+                src = ds[0][3][1]          # switch on the discriminant of ...
+            elif (len(ds) == 1 and ds[0][2] == 'call' and self._is_branch(ds[0][3]) and ds[0][3][2] and ds[0][3][2][0][0] in ('c', 'm')
+                  and isinstance(ds[0][3][2][0][1], int)):
+                src = ds[0][3][2][0][1]    # ... Try::branch(flag): `?` on a merged Result / Option
             else:
                 break
         if src in val or src not in self.flags:
@@ -1183,6 +1188,30 @@ class Reach:
                             out = (whole, alt2)
                 if out is None and whole.startswith('phi(') and alt and alt in whole and alt != whole:
                     out = (whole, alt)
+                if out is None and whole.startswith('phi(') and whole.endswith(')'):
+                    # the two renderings can differ in depth (rec(..) cut-offs): take the alternative of the merge that is not one of
+                    # the constant / from_residual definitions
+                    alts, depth_, cur_ = [], 0, ''
+                    for ch in whole[4:-1]:
+                        if ch in '([':
+                            depth_ += 1
+                        elif ch in ')]':
+                            depth_ -= 1
+                        if ch == '|' and depth_ == 0:
+                            alts.append(cur_)
+                            cur_ = ''
+                        else:
+                            cur_ += ch
+                    alts.append(cur_)
+                    cterms = set()
+                    for c_ in consts:
+                        try:
+                            cterms.add(fn.term_def(c_, 0))
+                        except Exception:
+                            pass
+                    rest = [a_ for a_ in alts if a_ not in cterms and 'from_residual(' not in a_.split('(', 2)[0] + '(' and not re.match(r'^<[^()]*FromResidual<[^()]*>>::from_residual\(', a_)]
+                    if len(alts) == len(consts) + 1 and len(rest) == 1:
+                        out = (whole, rest[0])
             except Exception:
                 out = None
         self._refine_cache[src] = out
@@ -1229,7 +1258,15 @@ class Reach:
                 # it holds the computed value - state the edge propositions about that value instead of about phi(const|value)
                 ref = self._refine(t[1][1], val)
                 if ref:
-                    props = {s_: list(ps_) + [p_.replace(ref[0], ref[1]) for p_ in ps_ if ref[0] in p_] for s_, ps_ in props.items()}
+                    def _ref(p_):
+                        if ref[0] in p_:
+                            return p_.replace(ref[0], ref[1])
+                        # the same merge rendered at another depth inside `ok(..)` (a `?` on the flag itself)
+                        m_ = re.match(r'^(!?)ok\((phi\(.*\))\)$', p_, re.S)
+                        if m_ and balanced(m_.group(2)[4:-1]):
+                            return f'{m_.group(1)}ok({ref[1]})'
+                        return None
+                    props = {s_: list(ps_) + [q_ for q_ in (_ref(p_) for p_ in ps_) if q_] for s_, ps_ in props.items()}
             for s in succs:
                 if fn.blocks[s]['cleanup']:
                     continue
